@@ -214,17 +214,32 @@ def r_pack_bits(ctx, rule='R-BQ-PACK'):
     f = F.fn('unaligned_vector::binary_quantized::from_slice_non_optimized')
     if f is None:
         return
-    # word = (word << 1) + is_sign_positive(x) over rev(chunk)
-    rev = [c for c in f.calls() if c.callee.endswith('Iterator::rev')]
-    sp_ = [c for c in f.calls() if c.callee.endswith('f32>::is_sign_positive')]
-    neg = [c for c in f.calls() if c.callee.endswith(('f32>::is_sign_negative', 'Not::not'))]
+    # word = (word << 1) + is_sign_positive(x) over rev(chunk); the per-component step may live in a closure (fold)
+    bodies = [f]
+    seen = {f.path}
+    work = [f]
+    while work:
+        g = work.pop()
+        for blk in g.blocks:
+            for st in blk['stmts']:
+                rv = st['rv']
+                if rv['k'] == 'agg' and rv.get('agg') == 'closure' and rv['closure'] not in seen and F.fn(rv['closure']) is not None:
+                    seen.add(rv['closure'])
+                    bodies.append(F.fn(rv['closure']))
+                    work.append(F.fn(rv['closure']))
+    rev = [c for g in bodies for c in g.calls() if c.callee.endswith('Iterator::rev')]
+    sp_ = [c for g in bodies for c in g.calls() if c.callee.endswith('f32>::is_sign_positive')]
+    neg = [c for g in bodies for c in g.calls() if c.callee.endswith(('f32>::is_sign_negative', 'Not::not'))]
     word_updates = []
-    for blk in f.blocks:
-        for st in blk['stmts']:
-            rv = st['rv']
-            if rv['k'] == 'binop' and rv['op'] in ('Shl', 'ShlUnchecked', 'Shr', 'Add', 'AddWithOverflow', 'BitOr', 'AddUnchecked') and 'u64' in f.local_ty(st['place']['l']) or \
-                    (rv['k'] == 'binop' and rv['op'] in ('AddWithOverflow',) and 'u64' in f.local_ty(st['place']['l'])):
-                word_updates.append((rv['op'], f.term(rv['b'])))
+    for g in bodies:
+        for blk in g.blocks:
+            if blk['cleanup']:
+                continue
+            for st in blk['stmts']:
+                rv = st['rv']
+                if rv['k'] == 'binop' and rv['op'] in ('Shl', 'ShlUnchecked', 'Shr', 'Add', 'AddWithOverflow', 'BitOr', 'AddUnchecked') and (
+                        'u64' in g.local_ty(st['place']['l']) or '(u64, bool)' in g.local_ty(st['place']['l'])):
+                    word_updates.append((rv['op'], g.term(rv['b'])))
     shl = [o for o, b in word_updates if o.startswith('Shl') and const_eval(b) == 1]
     add = [(o, b) for o, b in word_updates if (o.startswith('Add') or o == 'BitOr') and any(x[0] == 'call' and x[1].endswith('is_sign_positive') for x in walk(b))]
     unneg = not neg and not any(x[0] == 'unop' and x[1] == 'Not' for o, b in add for x in walk(b))
